@@ -146,6 +146,12 @@ class UploadPipeline(Scenario):
                         "final_empty": rng.random() < 0.5,
                     }
                 )
+        if rng.random() < 0.012:
+            # file bytes that contain the delimiter behind a bare LF or CR: MIME can carry them (only CRLF--boundary is
+            # reserved), the decoder's tolerance for bare line breaks cannot (recorded finding K1)
+            nl_ = rng.choice([b"\n", b"\r"])
+            parts.append({"kind": "file", "name": gen_name(rng, False), "filename": "k1.bin", "ctype": "application/octet-stream",
+                          "payload": b2s(b"first" + nl_ + b"--" + bb + rng.choice([nl_, b"--" + nl_, b" " + nl_]) + b"second"), "splits": [], "final_empty": False, "bare_newline_delimiter": True})
         # repeated names on purpose
         if len(parts) >= 2 and rng.random() < 0.4:
             parts[-1]["name"] = parts[0]["name"]
@@ -173,6 +179,7 @@ class UploadPipeline(Scenario):
             "tape": [] if rng.random() < 0.4 or big else [rng.choice([0, 0, 1, 2, 7, 50]) for _ in range(60)],
             "field_split": rng.random() < 0.3,
             # how the application fills the builder: constructor data, in-place adds, or assigning form / files in either order
+            "file_form": rng.choice(["storage", "storage", "plain"]),
             "builder_form": rng.choice(["ctor", "ctor", "inplace", "assign_form_first", "assign_files_first", "ctor_files_then_assign_form", "ctor_fields_then_assign_files"]),
         }
 
@@ -181,7 +188,12 @@ class UploadPipeline(Scenario):
         fields, files, seq = [], [], []
         for p in case.get("parts", []):
             if p.get("kind") == "file":
-                t = (str(p.get("name", "")), str(p.get("filename") or ""), str(p.get("ctype", "text/plain")), file_bytes(p))
+                ctype = str(p.get("ctype", "text/plain"))
+                if case.get("enc") == "stream" and case.get("file_form") == "plain" and p.get("filename"):
+                    import mimetypes
+
+                    ctype = mimetypes.guess_type(str(p["filename"]))[0] or "application/octet-stream"  # a plain file has no type of its own
+                t = (str(p.get("name", "")), str(p.get("filename") or ""), ctype, file_bytes(p))
                 files.append(t)
                 seq.append(("file", t[0], t[1], t[3]))
             else:
@@ -258,7 +270,17 @@ class UploadPipeline(Scenario):
 
         if enc == "stream":
             md = MultiDict()
+            plain = case.get("file_form") == "plain"
             for p in parts:
+                if p.get("kind") == "file" and plain and p.get("filename"):
+                    # an ordinary open file (anything with read() and a name) instead of a FileStorage; its content type
+                    # is guessed from the name
+                    sf = SimFile(file_bytes(p), ftape, seekable=True)
+                    sf.name = str(p["filename"])
+                    sims.append(sf)
+                    md.add(str(p.get("name", "")), sf)
+                    out.probe("plain_file_object_uploaded")
+                    continue
                 md.add(str(p.get("name", "")), fs(p) if p.get("kind") == "file" else str(p.get("value", "")))
             thr = int(case.get("threshold", 1024 * 500) or 0)
             stream, length, b = wt.stream_encode_multipart(md, use_tempfile=True, threshold=thr, boundary=boundary)
@@ -429,6 +451,9 @@ class UploadPipeline(Scenario):
             out.violate(f"{pre}/payload-differs/enc={enc}/dec={dec}", f"part {i}: {got[i][3][-40:]!r} ({len(got[i][3])}) expected {exp[i][3][-40:]!r} ({len(exp[i][3])})")
 
     def done(self, out: Outcome, tr: Trace, case: dict, seq) -> Outcome:
+        if out.violations and any(p.get("bare_newline_delimiter") for p in case.get("parts", []) if isinstance(p, dict)):
+            first = out.violations[0]
+            out.violations[:] = [(f"{self.pid}/{self.name}/file-content-with-bare-newline-delimiter-is-cut", f"{first[0].split('/', 2)[-1]}: {first[1]}")]
         out.digest = tr.digest()
         out.trace = tr.events
         out.nontrivial = len(seq) > 0
